@@ -18,7 +18,7 @@ import (
 // partsOfLabel: s is the list of parts assembled from the label parameters of an action: an optional first element that
 // is a label asserted to string, followed by the elements 0..k-1 (in that order, each asserted to string) of ONE label
 // asserted to []interface{}. Returns a description of what is wrong, or "".
-func partsOfLabel(ps *PathSim, sm *Summary, s *Sym, labels map[string]bool) string {
+func partsOfLabel(ps *PathSim, sm *Summary, s *Sym, labels map[string]bool, labelParams []*ssa.Parameter) (why string) {
 	base, parts := appendChain(sm.St, s)
 	elems := flattenAppended(sm.St, parts, 0)
 	var first *Sym
@@ -55,12 +55,37 @@ func partsOfLabel(ps *PathSim, sm *Summary, s *Sym, labels map[string]bool) stri
 		}
 		return x.A.V.Name(), labels[x.A.V.Name()]
 	}
-	if first != nil {
-		if _, ok := isLabelString(first); !ok {
-			return "the first part is not a label's text: " + shortKey(first)
+	if first == nil && len(elems) > 0 {
+		// the first part appended like the others: append(make([]string, 0, n), first.(string)), then the list
+		if _, ok := isLabelString(elems[0]); ok {
+			first, elems = elems[0], elems[1:]
 		}
 	}
+	firstName := ""
+	if first != nil {
+		n, ok := isLabelString(first)
+		if !ok {
+			return "the first part is not a label's text: " + shortKey(first)
+		}
+		firstName = n
+	}
 	list := ""
+	defer func() {
+		// every label of the action is part of the path: the first part's label and the list's, unless known nil here
+		if why != "" {
+			return
+		}
+		for _, p := range labelParams {
+			if p.Name() == firstName || p.Referrers() == nil {
+				continue
+			}
+			for _, u := range *p.Referrers() {
+				if ta, ok := u.(*ssa.TypeAssert); ok && types.Identical(ta.AssertedType, types.Typ[types.String]) {
+					why = "label " + p.Name() + " is read as a string but is not the first part of the path"
+				}
+			}
+		}
+	}()
 	for i, e := range elems {
 		// tav(*(&tav(param(L),[]interface{})[const(i)]), string)
 		if e == nil || e.K != sTAValue || !types.Identical(e.T, types.Typ[types.String]) || e.A.K != sLoad || e.A.A.K != sIndexAddr {
@@ -163,7 +188,7 @@ func checkSelectorActionSSA(r *Run, ga *GA, sn *peg.Node, pfx string) {
 			if nParse != 0 {
 				add("the dotted/bracket selector action must use the parts as they are (no pointerstructure.Parse)")
 			}
-			if why := partsOfLabel(ps, sm, path, labels); why != "" {
+			if why := partsOfLabel(ps, sm, path, labels, fn.Params[1:]); why != "" {
 				add("dotted/bracket selector: %s", why)
 			}
 			continue
@@ -203,7 +228,7 @@ func checkSelectorActionSSA(r *Run, ga *GA, sn *peg.Node, pfx string) {
 			if f, _ := calleeOfSym(joined); isCallTo(f, "strings", "Join") {
 				as := symArgs(sm.St, joined)
 				if len(as) == 2 && as[1].K == sConst && as[1].C != nil && constant.StringVal(as[1].C) == "/" {
-					if why := partsOfLabel(ps, sm, as[0], labels); why != "" {
+					if why := partsOfLabel(ps, sm, as[0], labels, fn.Params[1:]); why != "" {
 						add("JSON-Pointer segments: %s", why)
 					} else {
 						okJoin = true
